@@ -382,7 +382,7 @@ package parser
 //@ assigns p.curToken, p.peekToken, p.errors, p.inForBlock, p.Lexer.ch, p.Lexer.position, p.Lexer.readPosition, p.Lexer.curLine, p.Lexer.inside, anyobj(ast.Identifier.Callee), anyobj(ast.CallExpression.Callee), anyobj(ast.CallExpression.Block), fresh
 //@ decreases M(p), 7
 //@ mutual
-//@ loop 1: invariant lexer.linv(p.Lexer) && errsok(p) && M(p) <= old(M(p)) && p.inForBlock == old(p.inForBlock) && hash != nil && hash.Pairs != nil && (p.curToken.Type != token.EOF || p.peekToken.Type != token.EOF) && wfxs(hash.Order) && (forall k ast.Expression :: has(hash.Pairs, k) ==> nnx(k) && wfx(hash.Pairs[k]))
+//@ loop 1: invariant lexer.linv(p.Lexer) && errsok(p) && M(p) <= old(M(p)) && p.inForBlock == old(p.inForBlock) && hash != nil && hash.Pairs != nil && (p.curToken.Type != token.EOF || p.peekToken.Type != token.EOF) && (forall i int :: 0 <= i && i < len(hash.Order) ==> nnx(hash.Order[i]) && has(hash.Pairs, hash.Order[i])) && (forall k ast.Expression :: has(hash.Pairs, k) ==> nnx(k) && wfx(hash.Pairs[k]))
 //@ loop 1: decreases M(p)
 
 //@ func (p *parser) assignCallee
